@@ -1,2 +1,31 @@
-(* C15 -- theorems are being added *)
-From ZK Require Import Cl.
+(* C15 -- CL03 proof of knowledge of a signature.  Proved: an accepted proof has its range proof on e made for the
+   commitment Ce of the sigma protocol and passes the five-equation check; completeness of the per-attribute two-secret
+   protocol.  Completeness of the whole proof for every hidden set and rejection of mismatching statements / edited
+   fields: correspondence + sweep (all subsets U for n <= 3 / 5). *)
+From ZK Require Import Cl ClArith ClSig ClMore.
+
+Theorem C15_spok_accepts_ties_Ce :
+  forall CS BP p ck pk bases rmsgs U nsm,
+  spok_verify CS BP p ck pk bases rmsgs U nsm = Ok true ->
+  c_value (sp_Ce (pk_spok p)) = bd_E (pk_rpe p) /\ nisp5_verify (pk_spok p) ck pk bases rmsgs U nsm = Ok true.
+Proof. exact spok_accepts_ties_Ce. Qed.
+Check (C15_spok_accepts_ties_Ce :
+  forall CS BP p ck pk bases rmsgs U nsm,
+  spok_verify CS BP p ck pk bases rmsgs U nsm = Ok true ->
+  c_value (sp_Ce (pk_spok p)) = bd_E (pk_rpe p) /\ nisp5_verify (pk_spok p) ck pk bases rmsgs U nsm = Ok true).
+Print Assumptions C15_spok_accepts_ties_Ce.
+
+Theorem C15_nisp2sec_complete :
+  forall CS m c g h n ds p ds',
+  (0 < n)%Z -> (0 <= m)%Z -> (0 <= c_rand c)%Z -> c_value c = ((g ^ m * h ^ c_rand c) mod n)%Z ->
+  Forall (fun d => (0 <= d_val d)%Z) ds ->
+  nisp2sec_gen CS m c g h n ds = Ok (p, ds') ->
+  nisp2sec_verify p c g h n = Ok true.
+Proof. exact nisp2sec_complete. Qed.
+Check (C15_nisp2sec_complete :
+  forall CS m c g h n ds p ds',
+  (0 < n)%Z -> (0 <= m)%Z -> (0 <= c_rand c)%Z -> c_value c = ((g ^ m * h ^ c_rand c) mod n)%Z ->
+  Forall (fun d => (0 <= d_val d)%Z) ds ->
+  nisp2sec_gen CS m c g h n ds = Ok (p, ds') ->
+  nisp2sec_verify p c g h n = Ok true).
+Print Assumptions C15_nisp2sec_complete.
